@@ -26,8 +26,10 @@ package tls
 
 import (
 	"bytes"
+	"errors"
 	"fmt"
 	"io"
+	"net"
 	"strings"
 	"sync"
 	"testing"
@@ -167,6 +169,11 @@ type vf25Op struct {
 	KeyUpdate bool
 	Request   bool
 	Size      int
+	// TimeoutRead: the reader of this direction runs into an expired read deadline and then goes on reading with a new
+	// deadline (a read timeout is a temporary net.Error, the stream must survive it): 1 = while the connection is idle,
+	// before the write of this op; 2 = after TimeoutCut bytes of the first record of this op's write have arrived
+	TimeoutRead int
+	TimeoutCut  int
 }
 
 type vf25Fault struct {
@@ -204,6 +211,8 @@ func (c *vf25Case) opsString() string {
 		}
 		if op.KeyUpdate {
 			fmt.Fprintf(&sb, "%s:KU(%v) ", side, op.Request)
+		} else if op.TimeoutRead != 0 {
+			fmt.Fprintf(&sb, "%s:%d(read-timeout:%d/%d) ", side, op.Size, op.TimeoutRead, op.TimeoutCut)
 		} else {
 			fmt.Fprintf(&sb, "%s:%d ", side, op.Size)
 		}
@@ -229,6 +238,7 @@ type vf25Dir struct {
 	w, r        io.ReadWriter
 	wc          *Conn // writer's Conn (for key updates / close_notify)
 	wp          *vfConn
+	rp          *vfConn // the reader's end of the transport
 	sent, recvd []byte
 	recs        []vf25RecLog
 	curTag      int
@@ -358,6 +368,40 @@ func (d *vf25Dir) nextBuf(bufs []int) int {
 }
 
 // readExactly asks the reader for n more bytes (in chunks) and appends what arrives to d.recvd.
+// timeoutRead: one Read of this direction's reader that runs into an expired read deadline - at once (cut == 0), or after
+// cut bytes of what is in flight have reached the connection. It must deliver nothing that was not written and fail with
+// a timeout; afterwards the deadline is set to dl again and reading goes on.
+func (d *vf25Dir) timeoutRead(dl time.Time, cut int) (int, string) {
+	past := time.Now().Add(-time.Second)
+	if cut == 0 {
+		d.rp.SetReadDeadline(past)
+	} else {
+		first := true
+		d.rp.maxRead = func() int {
+			if first {
+				first = false
+				d.rp.SetReadDeadline(past) // takes effect at the next transport read
+				return cut
+			}
+			return 0
+		}
+	}
+	buf := make([]byte, 1<<15)
+	n, err := d.r.Read(buf)
+	d.rp.maxRead = nil
+	d.rp.SetReadDeadline(dl)
+	d.recvd = append(d.recvd, buf[:n]...)
+	if err == nil {
+		// (possible when cut bytes happened to complete a record: nothing to judge, the bytes count as delivered)
+		return n, ""
+	}
+	var ne net.Error
+	if !errors.As(err, &ne) || !ne.Timeout() {
+		return n, fmt.Sprintf("%s: a Read that hit its read deadline (after %d bytes of the pending data) returned (%d, %v), not a timeout", d.name, cut, n, err)
+	}
+	return n, ""
+}
+
 func (d *vf25Dir) readExactly(n int, bufs []int) error {
 	buf := make([]byte, 1<<16)
 	for n > 0 {
@@ -471,8 +515,8 @@ func vf25Run(c *vf25Case) (class string, viol string, info string) {
 	p.CP.SetDeadline(dl)
 	p.SP.SetDeadline(dl)
 
-	c2s := &vf25Dir{name: "client->server", w: p.Cli, r: p.Srv, wc: p.Cli.Conn, wp: p.CP}
-	s2c := &vf25Dir{name: "server->client", w: p.Srv, r: p.Cli, wc: p.Srv, wp: p.SP}
+	c2s := &vf25Dir{name: "client->server", w: p.Cli, r: p.Srv, wc: p.Cli.Conn, wp: p.CP, rp: p.SP}
+	s2c := &vf25Dir{name: "server->client", w: p.Srv, r: p.Cli, wc: p.Srv, wp: p.SP, rp: p.CP}
 	if c.Fault.Kind != "none" {
 		if c.Fault.C2S {
 			c2s.fault = &c.Fault
@@ -525,6 +569,11 @@ func vf25Run(c *vf25Case) (class string, viol string, info string) {
 				return "error", fmt.Sprintf("op %d: key update on %s failed: %v", i, d.name, err), ""
 			}
 		} else {
+			if op.TimeoutRead == 1 {
+				if _, v := d.timeoutRead(dl, 0); v != "" {
+					return "error", fmt.Sprintf("op %d: %s", i, v), ""
+				}
+			}
 			msg := make([]byte, op.Size)
 			data.Read(msg)
 			d.curTag, d.opStartSent = i, len(d.sent)
@@ -541,7 +590,15 @@ func vf25Run(c *vf25Case) (class string, viol string, info string) {
 			return faultClass(), v, ""
 		}
 		if !op.KeyUpdate && op.Size > 0 {
-			if err := d.readExactly(op.Size, c.Bufs); err != nil {
+			already := 0
+			if op.TimeoutRead == 2 {
+				n, v := d.timeoutRead(dl, op.TimeoutCut)
+				if v != "" {
+					return "error", fmt.Sprintf("op %d: %s", i, v), ""
+				}
+				already = n
+			}
+			if err := d.readExactly(op.Size-already, c.Bufs); err != nil {
 				return "error", fmt.Sprintf("op %d: %s reader failed without tampering: %v (delivered %d of %d)", i, d.name, err, len(d.recvd), len(d.sent)), ""
 			}
 			if !bytes.Equal(d.recvd, d.sent) {
@@ -672,6 +729,10 @@ func vf25GenCase(rt *rapid.T) *vf25Case {
 			default:
 				op.Size = vf25Sizes[rapid.IntRange(0, len(vf25Sizes)-1).Draw(rt, "sizeidx")]
 			}
+		}
+		if !op.KeyUpdate && rapid.IntRange(0, 5).Draw(rt, "read_timeout") == 0 {
+			op.TimeoutRead = rapid.IntRange(1, 2).Draw(rt, "read_timeout_kind")
+			op.TimeoutCut = rapid.SampledFrom([]int{1, 3, 5, 6, 100}).Draw(rt, "read_timeout_cut")
 		}
 		c.Ops = append(c.Ops, op)
 	}
